@@ -38,24 +38,60 @@ type Chan struct {
 // made a transition of its own (recvArrive). The set of creation sites is
 // discovered while an entry runs; finding a new one restarts the entry's
 // exploration with the enlarged set (runEntry).
-var arrivalSites sync.Map // creation site -> bool
+// The set in force is frozen while an exploration round runs (every execution
+// of the round, including re-executions of recorded prefixes, must see the same
+// transitions); discoveries go to a pending set that runEntry merges between
+// rounds.
+var arrivalActive atomic.Value // map[string]bool, replaced wholesale between rounds
+var arrivalPending sync.Map    // creation site -> bool
 var arrivalNew int64
+
+func arrivalActiveSet() map[string]bool {
+	if m, ok := arrivalActive.Load().(map[string]bool); ok {
+		return m
+	}
+	return nil
+}
 
 func arrivalSensitive(c *Chan) bool {
 	if c == nil || c.site == "" {
 		return false
 	}
-	_, ok := arrivalSites.Load(c.site)
-	return ok
+	return arrivalActiveSet()[c.site]
 }
 
 func markArrivalSensitive(c *Chan) {
-	if c == nil || c.site == "" {
+	if c == nil || c.site == "" || arrivalActiveSet()[c.site] {
 		return
 	}
-	if _, loaded := arrivalSites.LoadOrStore(c.site, true); !loaded {
+	if _, loaded := arrivalPending.LoadOrStore(c.site, true); !loaded {
 		atomic.AddInt64(&arrivalNew, 1)
 	}
+}
+
+// arrivalMerge moves the pending discoveries into the set in force. Called only
+// while no exploration worker is running.
+func arrivalMerge() {
+	n := map[string]bool{}
+	for k := range arrivalActiveSet() {
+		n[k] = true
+	}
+	arrivalPending.Range(func(k, _ interface{}) bool {
+		n[k.(string)] = true
+		arrivalPending.Delete(k)
+		return true
+	})
+	arrivalActive.Store(n)
+}
+
+// arrivalSet replaces the set in force (replay of a recorded counterexample).
+func arrivalSet(sites []string) {
+	n := map[string]bool{}
+	for _, s := range sites {
+		n[s] = true
+	}
+	arrivalPending.Range(func(k, _ interface{}) bool { arrivalPending.Delete(k); return true })
+	arrivalActive.Store(n)
 }
 
 func (ex *Exec) newChan(capacity int) *Chan {
@@ -674,6 +710,8 @@ func (g *G) mapAccess(m *omap, write bool) {
 
 func arrivalSiteList() []string {
 	var out []string
-	arrivalSites.Range(func(k, _ interface{}) bool { out = append(out, k.(string)); return true })
+	for k := range arrivalActiveSet() {
+		out = append(out, k)
+	}
 	return out
 }
